@@ -10,6 +10,7 @@ import (
 	"path/filepath"
 	"sort"
 	"strconv"
+	"strings"
 	"sync"
 	"time"
 )
@@ -53,6 +54,7 @@ type Run struct {
 	Extra       map[string]any
 	Exhaustive  bool
 	notes       []string
+	outOfScope  map[string]int
 }
 
 // Start parses the common flags. budgets are the internal soft deadlines per tier.
@@ -143,6 +145,19 @@ func (r *Run) loadKnown() {
 func (r *Run) Violation(signature, what string, replay any) {
 	r.mu.Lock()
 	defer r.mu.Unlock()
+	// Convention: a class that can only be produced with inputs OUTSIDE the property's
+	// quantifier (and that no production path can produce) is tagged ":class=unreachable";
+	// the property does not speak about it, so it is recorded as information, never as an alarm.
+	if strings.Contains(signature, ":class=unreachable") {
+		if r.outOfScope == nil {
+			r.outOfScope = map[string]int{}
+		}
+		if r.outOfScope[signature] == 0 {
+			fmt.Printf("OUT-OF-SCOPE (information only): %s\n", signature)
+		}
+		r.outOfScope[signature]++
+		return
+	}
 	for _, k := range r.known {
 		if k.Signature == signature {
 			if r.knownHit[signature] == 0 {
@@ -215,6 +230,9 @@ func (r *Run) Finish(cov map[string]any) {
 	sort.Strings(kh)
 	if len(kh) > 0 {
 		cov["known_findings_reproduced"] = kh
+	}
+	if len(r.outOfScope) > 0 {
+		cov["out_of_scope_classes_observed"] = r.outOfScope
 	}
 	ev := map[string]any{
 		"property_id": r.ID, "tier": r.Tier, "seed": r.Seed, "level": r.Level,
